@@ -285,6 +285,18 @@ def truth(self, v: Term, st: State) -> Term:
         return v
     if v.op in ("func", "class", "bound", "closure", "partial", "module", "builtin", "ext"):
         return TRUE
+    if v.op == "phi" and v.args[0].op not in ("sym",):
+        # the truth of a conditional value with a constant arm is a conjunction / disjunction: (False if c else x) is (not c and x), (True if c else x) is (c or x), ...
+        # (what `if not test: return False; return other_test` in a predicate helper merges to)
+        c_, a_, b_ = v.args
+        for arm, other, pol in ((a_, b_, True), (b_, a_, False)):
+            if is_const(arm) and isinstance(cval(arm), bool):
+                cc = c_ if pol else neg(c_)
+                ot = truth(self, other, st)
+                if cval(arm) is False:
+                    # arm taken when cc holds gives False: value is true iff (not cc) and other
+                    return mk("and", (neg(cc), ot))
+                return mk("or", (cc, ot))
     if v.op in ("tuple", "sbytes"):
         return C(len(v.args[0]) > 0)
     if v.op == "ref":
@@ -401,6 +413,13 @@ def lookup_global(self, m: ModuleInfo, name: str, st: State, node=None) -> Term:
                     return None if any(i_ is None for i_ in its_) else mk("tuple", tuple(its_))
                 if isinstance(x_, ast.Constant):
                     return C(x_.value)
+                if isinstance(x_, ast.Lambda):
+                    # a lambda in a module-level table: a function of the module (its free names are module globals)
+                    lf_ = self._prop_getters.get(id(x_))
+                    if lf_ is None:
+                        lf_ = FuncInfo(rm, x_, "%s.<lambda@%d:%d>" % (rm.name, x_.lineno, x_.col_offset), None)
+                        self._prop_getters[id(x_)] = lf_
+                    return self.fterm(lf_)
                 if isinstance(x_, (ast.Name, ast.Attribute)):
                     fd_ = _dotted(x_)
                     if not fd_:
@@ -560,6 +579,20 @@ def get_attr(self, base: Term, name: str, st: State, node=None) -> Term:
             return base.args[0][idx.pop()]
         if len(idx) > 1:
             raise Unsupported("attribute %s of a tuple that stands for named tuples of different classes" % name)
+        ncls = getattr(self, "nt_class", {}).get(base.uid)
+        if not idx and ncls and len(ncls) == 1:
+            # a method / property defined by the named-tuple class of the record: bound to the record
+            c_ = self.prog.classes.get(next(iter(ncls)))
+            r_ = c_.lookup(name) if c_ is not None else None
+            if r_ is not None and isinstance(r_[1], FuncInfo):
+                self.fis[id(r_[1].node)] = r_[1]
+                if r_[1].kind == "property":
+                    return self.call_function(r_[1], [base], {}, st, node, self_term=base)
+                if r_[1].kind == "staticmethod":
+                    return self.fterm(r_[1])
+                return mk("bound", r_[1].qualname, id(r_[1].node), base if r_[1].kind != "classmethod" else mk("class", c_.qualname))
+            if name == "_asdict":
+                return mk("bound_asdict", base)
     if op == "structobj":
         if name == "size":
             import struct as _struct
@@ -1236,6 +1269,16 @@ def ev_call(self, e: ast.Call, st: State) -> Term:
 
 def call(self, fn: Term, args: List[Term], kwargs: Dict[str, Term], st: State, node) -> Term:
     op = fn.op
+    if op == "bound_asdict" and not args and not kwargs:
+        # record._asdict(): the dictionary field name -> value, in field order
+        rec = fn.args[0]
+        fl = sorted(self.nt_fields.get(rec.uid, ()))
+        if len(fl) == 1:
+            d_ = self.new_obj(st, "dict")
+            o_ = self.obj(st, d_)
+            for nm_, v_ in zip(fl[0], rec.args[0]):
+                o_.kv[nm_] = v_
+            return d_
     if op == "func":
         return self.call_function(self.fi_of(fn), args, kwargs, st, node)
     if op == "bound":
